@@ -11,6 +11,11 @@ Harness-level *actions* (json-able lists) and the model ops (coq/lib/Refs.v) the
   ["oh"]                       H processes the next O->H message       -> RecvOH x (number of my-references
                                in the message, or 1 for an ack)
   ["ho"]                       O processes the next H->O message       -> RecvHO
+  ["ho", g, [k1,..]]           the same, but the eventual-send queue is run for g generations only (g = 0: the message is
+                               parsed, its call not yet run; g >= 1: the call has run, what it scheduled for later turns
+                               has run g-1 generations deep) when O sends the objects k1.. (the answer of the next queued
+                               call, a callback, ... carries them); then the queue is run to the end
+                                                                       -> g = 0: Send k1; ..; RecvHO   g >= 1: RecvHO; Send k1; ..
   ["drop", p, turn]            H drops proxy p (turn=False: the eventual-send queue is not run yet,
                                so _handleRefLost stays pending)        -> DropProxy p
   ["home", p, iscall]          H sends proxy p back to O as an argument, or calls through it
@@ -104,6 +109,25 @@ class X(Referenceable):
 
     def remote_ping(self):
         self.pings += 1
+
+
+def one_generation():
+    """run ONE generation of the eventual-send queue: the events queued so far; what they queue in turn stays queued
+    (Clock.advance(0) would go on until the queue is empty: a callLater(0) made during advance(0) runs in the same call)"""
+    from foolscap import eventual as ev
+    q = ev._theSimpleQueue
+    if not (hasattr(q, "_events") and hasattr(q, "_timer") and hasattr(q, "_turn")):
+        E.clock.advance(0)
+        return
+    t = q._timer
+    if t is not None:
+        if t.active():
+            t.cancel()
+        q._timer = None
+    if q._events:
+        q._turn()
+    elif t is not None:
+        q._turn()          # (nothing queued: let the turn do its end-of-turn work, e.g. flush observers)
 
 
 class DecrefLog:
@@ -230,6 +254,9 @@ class World:
     def turn(self):
         self.tO.endmsg(); self.tH.endmsg()
         E.turn()
+        self._written_in_turn()
+
+    def _written_in_turn(self):
         self.tO.endmsg(); self.tH.endmsg()
         # messages written during the turn: H only ever originates decref calls there, O only answers to them
         while len(self.inflight_ho) < len(self.tH.q):
@@ -370,13 +397,28 @@ class World:
         gc.collect()
         return ops, obs
 
-    def a_ho(self):
+    def a_ho(self, gens=None, ks=()):
+        """gens/ks: see the module docstring -- O sends again while the reactor turns that the handling of this message
+        scheduled are still to come (nothing in the unchanged code defers work of an inbound message past the turn that
+        runs its call, so there the send sees either 'not yet processed' or 'completely processed')"""
         if self.lost or not self.tH.q:
             return [], None
         info = self.inflight_ho.pop(0)
         data = self.tH.q.pop(0)
         pings = {k: o.pings for k, o in self.objs.items() if k > 0}
         self.O.dataReceived(data)
+        send_ops = []
+        if gens is not None and ks:
+            self.tO.endmsg(); self.tH.endmsg()
+            for i in range(gens):
+                one_generation()
+            self._written_in_turn()
+            payload = [self.objs[k] for k in ks]
+            self.rrO.callRemoteOnly("m", 7, payload)
+            del payload
+            self.tO.endmsg()
+            self.inflight.append(("refs", list(ks), False))
+            send_ops = [("Send", k, False) for k in ks]
         self.turn()
         obs = None
         if info[0] == "home":
@@ -397,7 +439,8 @@ class World:
                     if got[0] is not self.objs[k]:
                         self.problems.append(("oracle/home-not-original", "proxy of object %d sent home arrived as %r" % (k, got[0])))
                 del got[:]
-        return [("RecvHO",)] + self._reflost_ops(), obs
+        ops = (send_ops + [("RecvHO",)]) if (send_ops and gens == 0) else ([("RecvHO",)] + send_ops)
+        return ops + self._reflost_ops(), obs
 
     def a_drop(self, pid, turn):
         if pid not in self.held:
@@ -617,6 +660,9 @@ PROFILES = {
     "discard": ([1, 2, 3], dict(send=5, oh=5, ho=4, drop=4, home=1, lost=0), 0.3, 0.2),
     "loss": ([1, 2, 3], dict(send=5, oh=4, ho=3, drop=3, home=2, lost=1, arm=1), 0.1, 0.3),
     "methods": ([1, -1, -2], dict(send=5, oh=5, ho=4, drop=5, home=1, lost=0), 0.05, 0.25),
+    # hosend: the owner sends again 0..3 eventual-send generations after an H->O message (decref / call through a proxy /
+    # proxy sent home) was handed to its Broker, i.e. between the reactor turns which the handling of that message takes
+    "turns": ([1, 2, -1], dict(send=3, oh=5, ho=2, hosend=5, drop=5, home=2, lost=0), 0.05, 0.25),
 }
 
 
@@ -633,7 +679,7 @@ def gen_and_run(rng, profile, nsteps):
                 continue
             if k == "oh" and not W.tO.q:
                 continue
-            if k == "ho" and not W.tH.q:
+            if k in ("ho", "hosend") and not W.tH.q:
                 continue
             if k in ("drop", "home") and not [p for p in W.held if p != 0]:
                 continue
@@ -661,6 +707,9 @@ def gen_and_run(rng, profile, nsteps):
             a = ["arm", [rng.choice(objs) for j in range(rng.choice([1, 2]))], rng.choice(["only", "call"])]
         elif k == "lost":
             a = ["lost", rng.choice(World.LOST_HOW)]
+        elif k == "hosend":
+            # (the profile has three objects: the one whose release is being delivered is hit often enough)
+            a = ["ho", rng.choice([0, 1, 1, 1, 2, 2, 3]), [rng.choice(objs) for j in range(rng.choice([1, 1, 2]))]]
         else:
             a = [k]
         rec.do(a)
@@ -671,9 +720,11 @@ def gen_and_run(rng, profile, nsteps):
 
 WINDOW_PREFIX = [["send", [1], False], ["oh"], ["drop", 1, True]]
 WINDOW_ALPHABET = ["send", "oh", "ho", "dropT", "dropF", "home"]
+# the same window with the owner's re-send placed BETWEEN the reactor turns of the delivery of an H->O message
+WINDOW_ALPHABET_TURNS = ["ho0send", "ho1send", "ho2send", "oh", "ho", "dropT", "send"]
 
 
-def enumerate_window(depth, budget):
+def enumerate_window(depth, budget, alphabet=None, origin="window"):
     """EVERY interleaving (up to `depth` further actions) of: re-send, delivery of the next O->H message (my-reference
     or answer), delivery of the next H->O message (decref), dropping the newest proxy with / without running the
     eventual queue, sending the newest proxy home -- after `send; deliver; drop` has put a decref in flight.
@@ -684,7 +735,7 @@ def enumerate_window(depth, budget):
     for d in range(depth):
         nxt = []
         for seq in frontier:
-            for letter in WINDOW_ALPHABET:
+            for letter in (alphabet or WINDOW_ALPHABET):
                 if len(out) >= budget:
                     return out
                 W = World()
@@ -696,6 +747,8 @@ def enumerate_window(depth, budget):
                     newest = max([p for p in W.held if p != 0], default=None)
                     if l == "send":
                         a = ["send", [1], False]
+                    elif l.startswith("ho") and l.endswith("send"):
+                        a = ["ho", int(l[2:-4]), [1]]
                     elif l in ("oh", "ho"):
                         a = [l]
                     elif newest is None:
@@ -719,7 +772,7 @@ def enumerate_window(depth, budget):
                         pass
                     continue
                 r = rec.finish()
-                r["origin"] = "window"
+                r["origin"] = origin
                 out.append(r)
                 if not rec.aborted:
                     nxt.append(seq + [letter])
@@ -752,6 +805,10 @@ class Recorder:
                 self.discarded = True
             # a re-send racing a release: a decref for this object is queued, or its answer is outstanding
             if W.H.waitingForAnswers and not a[2]:
+                self.flags.add("resend-races-release")
+        if a[0] == "ho" and len(a) > 2 and a[2] and not W.lost and W.tH.q:
+            self.flags.add("send-between-turns-of-inbound-message")
+            if W.H.waitingForAnswers or W.inflight_ho[0] == ("decref",):
                 self.flags.add("resend-races-release")
         held_before = set(W.held)
         try:
@@ -995,7 +1052,7 @@ def check_refs(ctx, pid, nontrivial_flag):
             ctx.note("corpus witness %s no longer shows %s on the implementation" % (r["origin"], w["expect"]))
         ctx.hist("corpus", "reproduced" if (w.get("expect") in sigs) else ("clean" if not sigs else "other"))
     # 2. generated
-    n = ctx.n(540, 6000)
+    n = ctx.n(630, 7000)          # 90 / 1000 per profile
     profiles = list(PROFILES)
     for i in range(n):
         prof = profiles[i % len(profiles)]
@@ -1006,6 +1063,9 @@ def check_refs(ctx, pid, nontrivial_flag):
     t1 = time.time()
     win = enumerate_window(ctx.n(6, 8), ctx.n(1000, 16000))
     results += win
+    win2 = enumerate_window(ctx.n(4, 6), ctx.n(400, 6000), WINDOW_ALPHABET_TURNS, "window-turns")
+    results += win2
+    ctx.extra["window_turns_histories"] = len(win2)
     ctx.extra["window_histories"] = len(win)
     ctx.extra["window_s"] = round(time.time() - t1, 1)
     for r in results:
@@ -1013,7 +1073,8 @@ def check_refs(ctx, pid, nontrivial_flag):
         ctx.hist("profile", r["origin"])
         ctx.hist("history_length", (len(r["actions"]) // 10) * 10)
         for a in r["actions"]:
-            ctx.hist("action", a[0] + ("-discarded" if a[0] == "send" and a[2] else "") + ("-noturn" if a[0] == "drop" and not a[2] else ""))
+            ctx.hist("action", a[0] + ("-discarded" if a[0] == "send" and a[2] else "") + ("-noturn" if a[0] == "drop" and not a[2] else "")
+                     + ("-send-after-%d-turns" % a[1] if a[0] == "ho" and len(a) > 2 else ""))
         for f in r["flags"]:
             ctx.hist("feature", f)
         for s in set(p[0] for p in r["problems"]):
